@@ -126,7 +126,8 @@ def build_phase(node, ctx, htf, diag_enum, diagnoses_lib, plugs=None):
       while True:
         time.sleep(0.002)
     if raw == 'invalid':
-      return 42
+      # anything that is not None and not a PhaseResult, falsy values included
+      return INVALID_RETURNS[(pid * 3 + k) % len(INVALID_RETURNS)]
     if raw == 'cont':
       return None if (pid + k) % 2 else htf.PhaseResult.CONTINUE
     return {'failcont': htf.PhaseResult.FAIL_AND_CONTINUE, 'rep': htf.PhaseResult.REPEAT,
@@ -195,7 +196,8 @@ def build_phase(node, ctx, htf, diag_enum, diagnoses_lib, plugs=None):
       out = [diagnoses_lib.Diagnosis(diag_enum['R%d' % rid], 'diagnosis %d' % rid, is_failure=bool(f)) for rid, f in d]
       return out[0] if len(out) == 1 and (pid + j) % 2 else out
     run.__name__ = 'dg%d_%d' % (pid, j)
-    diagnosers.append(diagnoses_lib.PhaseDiagnoser(diag_enum, name='dg%d_%d' % (pid, j))(run))
+    diagnosers.append(diagnoses_lib.PhaseDiagnoser(diag_enum, name='dg%d_%d' % (pid, j),
+                                                   always_fail=phase_diag_always_fail(pid, j))(run))
   if diagnosers:
     phase = htf.diagnose(*diagnosers)(phase)
   if plugs is not None:
@@ -365,7 +367,8 @@ def build_test(case, callbacks=None):
         raise RuntimeError('test diagnoser failure')
       return [diagnoses_lib.Diagnosis(env['diag_enum']['R%d' % rid], 'test diagnosis', is_failure=bool(f)) for rid, f in d]
     run.__name__ = 'tdg%d' % j
-    tdiags.append(diagnoses_lib.TestDiagnoser(env['diag_enum'], name='tdg%d' % j)(run))
+    tdiags.append(diagnoses_lib.TestDiagnoser(env['diag_enum'], name='tdg%d' % j,
+                                              always_fail=test_diag_always_fail(j))(run))
   if tdiags:
     test.add_test_diagnosers(*tdiags)
   start = None
@@ -421,16 +424,28 @@ def _b(x):
   return '1' if x else '0'
 
 
-def enc_diagrun(d):
+def phase_diag_always_fail(pid, j):
+  """some scripted diagnosers are declared always_fail=True: each of their diagnoses, returned singly or in a list,
+  is a failure whatever its own is_failure says - the encoding hands the model the forced flag"""
+  return (pid + 2 * j) % 3 == 0
+
+
+def test_diag_always_fail(j):
+  return j % 2 == 1
+
+
+def enc_diagrun(d, always_fail=False):
   if d == 'raise':
     return 'X'
-  return 'R %d %s' % (len(d), ' '.join('%d %s' % (rid, _b(f)) for rid, f in d))
+  return 'R %d %s' % (len(d), ' '.join('%d %s' % (rid, _b(f or always_fail)) for rid, f in d))
 
 
-def enc_inv(inv):
+def enc_inv(inv, pid=None):
   meas = inv.get('meas') or []
   diags = inv.get('diags') or []
-  return '%s %d %s %d %s' % (inv['raw'], len(meas), ' '.join(meas), len(diags), ' '.join(enc_diagrun(d) for d in diags))
+  return '%s %d %s %d %s' % (inv['raw'], len(meas), ' '.join(meas), len(diags),
+                             ' '.join(enc_diagrun(d, pid is not None and phase_diag_always_fail(pid, j))
+                                      for j, d in enumerate(diags)))
 
 
 def enc_phase(node):
@@ -457,7 +472,7 @@ def enc_phase(node):
     padded.append(default)
   return '%d %s %s %s %s %s %s %d %s' % (
       node['id'], '-' if o.get('limit') is None else o['limit'], _b(o.get('fr')), _b(o.get('rmf')), _b(o.get('rot')),
-      _b(o.get('somf')), ris, len(padded), ' '.join(enc_inv(i) for i in padded))
+      _b(o.get('somf')), ris, len(padded), ' '.join(enc_inv(i, node['id']) for i in padded))
 
 
 def _canon_meas(meas, kinds):
@@ -496,7 +511,7 @@ def enc_test(case):
   return '%s %s %s %d %s %d %s' % (
       _b(case.get('sof')), _b(case.get('allow')), ('1 ' + enc_phase(start)) if start is not None else '0',
       len(case['nodes']), ' '.join(enc_node(n) for n in case['nodes']), len(tdiags),
-      ' '.join(enc_diagrun(d) for d in tdiags))
+      ' '.join(enc_diagrun(d, test_diag_always_fail(j)) for j, d in enumerate(tdiags)))
 
 
 def core_tokens(tokens):
@@ -511,6 +526,7 @@ def clean(s):
 # ---------------------------------------------------------------------------
 # generators
 
+INVALID_RETURNS = [42, 0, False, '', [], {}, 0.0, 'CONTINUE', (), True]
 RAWS = ['cont', 'cont', 'cont', 'failcont', 'rep', 'skip', 'stop', 'failsub', 'invalid', 'exc', 'fexc', 'timeout']
 RAWS_NOTIMEOUT = [r for r in RAWS if r != 'timeout']
 
